@@ -89,6 +89,14 @@ pub fn case_xml(c: &Case) -> String {
             Some(Target::Ellipse(cx, cy, rx, ry)) => Some(XEl::new("ellipse").a("id", id.clone()).a("cx", num(*cx)).a("cy", num(*cy)).a("rx", num(*rx)).a("ry", num(*ry))),
             _ => None,
         };
+        // a group is pending as long as one of its members is
+        if let Some(Target::Group(kids)) = c.targets.get(idx) {
+            if let Some(slot) = els.iter_mut().find(|e| e.get("id") == Some(id.as_str())) {
+                let [x, y, w, hh] = kids[0];
+                slot.kids[0] = X::El(XEl::new("rect").a("x", num(x)).a("y", num(y)).a("width", num(w)).a("height", num(hh)).a(if idx % 2 == 0 { "dy" } else { "dx" }, "{{#late~h}}"));
+                late = Some(XEl::new("rect").a("id", "late").a("xy", "300 300").a("wh", format!("3 {}", num(h))));
+            }
+        }
         if let Some(e) = native {
             if let Some(slot) = els.iter_mut().find(|e| e.get("id") == Some(id.as_str())) {
                 *slot = e.a(if idx % 2 == 0 { "dy" } else { "dx" }, "{{#late~h}}");
